@@ -22,21 +22,26 @@ import tempfile
 import warnings
 
 import common as C
+from gen import regexes as RX
 
 PROPERTY = "C12"
-LEAN_MODULES = ["LccModel.Props.C12"]
-PROPS_FILES = ["LccModel/Props/C12.lean"]
-NAMESPACES = {"LccModel/Props/C12.lean": "LccModel.C12"}
+LEAN_MODULES = ["LccModel.Props.C12", "LccModel.Props.C12Grep"]
+PROPS_FILES = ["LccModel/Props/C12.lean", "LccModel/Props/C12Grep.lean"]
+NAMESPACES = {"LccModel/Props/C12.lean": "LccModel.C12", "LccModel/Props/C12Grep.lean": "LccModel.C12"}
 DRIVER = "drivers/C12.lean"
-TABLE_OPENS = ("LccModel.Filter",)
+TABLE_OPENS = ("LccModel.Filter", "LccModel.Regex (Item Cat)", "LccModel.Regex renaming RE → Rx")
 TRUSTED_BASE = [
     "Lean 4.33.0 kernel; axioms of the property theorems ⊆ {propext, Classical.choice, Quot.sound}",
     "hand-written model LccModel/Model/Filter.lean of filter.py, testtree.py (filter/filter_suites/flatten), "
     "cli/utils.load_suites_from_project and make_test_filter; tied to the code by the three streams and six extracted tables",
     "wildcard semantics: the model's fnmatch (translate + the re character-set reader) is validated against Python's "
     "fnmatch by C12.glob (exhaustive small bracket bodies + random), not proved equal to it",
-    "--grep: the re engine is trusted; the model treats the pattern as a case-insensitive literal and the generator "
-    "emits only re.escape()d literals over texts whose only case pairs are ASCII letters",
+    "--grep: Python's re parser and engine are trusted; the model (LccModel/Model/Regex.lean: a derivative matcher proved "
+    "equivalent to a declarative semantics) receives the pattern as Python's own parse tree (re._parser.parse with "
+    "IGNORECASE|MULTILINE) converted by harness/gen/regexes.py; fragment: literals, '.', bracket expressions, "
+    "\\s \\d \\w and their negations, ^ $ \\A \\Z \\b \\B, groups, |, * + ? {m,n}; validated against re on generated "
+    "patterns x texts (C12.glob kind=regex), on every code point < U+3100 for \\s, on ASCII for \\d \\w and case pairs; "
+    "patterns outside the fragment / non-ASCII letters with classes are decided by the oracle only",
     "report save/load (json, xml) is the loader's business (C09); C12.report goes through the real save+load",
     "the Python harness harness/props/c12.py (generators, canonicalisation, reference oracle)",
 ]
@@ -115,8 +120,30 @@ def enc_cli(c):
             "enabled": bool(c.get("enabled")), "disabled": bool(c.get("disabled")),
             "passed": bool(c.get("passed")), "failed": bool(c.get("failed")), "skipped": bool(c.get("skipped")),
             "non_passed": bool(c.get("non_passed")),
-            "grep": None if c.get("grep") is None else cp(c["grep"]),
+            "grep": None if grep_pattern(c) is None else cp(grep_pattern(c)),
+            "grep_ast": None if not grep_pattern(c) else RX.try_ast(grep_pattern(c)),
             "from_report": bool(c.get("from_report"))}
+
+
+def grep_pattern(cli):
+    """The text given to --grep: `grep_re` is a raw regular expression, `grep` a word that is passed re.escape()d."""
+    if cli.get("grep_re") is not None:
+        return cli["grep_re"]
+    if cli.get("grep") is not None:
+        return re.escape(cli["grep"])
+    return None
+
+
+def grep_model_ok(cli, report_trees):
+    """Can the Lean model decide this --grep?  (pattern inside the modelled fragment, characters inside the validated
+    domain; escaped words always were sent)"""
+    if cli.get("grep_re") is None or not cli["grep_re"]:
+        return True
+    ast = RX.try_ast(cli["grep_re"])
+    if ast is None:
+        return False
+    texts = [x for _, r in walk_tests(report_trees) for x in ref_grepables(r["steps"])]
+    return RX.model_can_decide(ast, texts)
 
 
 def dec(path):
@@ -125,7 +152,8 @@ def dec(path):
 
 def empty_cli():
     return {"paths": [], "descs": [], "tags": [], "props": [], "links": [], "enabled": False, "disabled": False,
-            "passed": False, "failed": False, "skipped": False, "non_passed": False, "grep": None, "from_report": False}
+            "passed": False, "failed": False, "skipped": False, "non_passed": False, "grep": None, "grep_re": None,
+            "from_report": False}
 
 
 # ----------------------------------------------------------------------------------------------
@@ -180,7 +208,7 @@ def cli_argv(cli, report_dir=None):
         if any(p.startswith("-") for p in cli["paths"]):
             others = any(cli[k] for k in ("descs", "tags", "props", "links")) or any(
                 cli.get(k) for k in ("enabled", "disabled", "passed", "failed", "skipped", "non_passed", "from_report")) \
-                or cli.get("grep") is not None
+                or grep_pattern(cli) is not None
             if others:
                 return None          # after "--" nothing but positionals can follow
             return ["--"] + list(cli["paths"])
@@ -213,8 +241,8 @@ def cli_argv(cli, report_dir=None):
             argv.append("--" + k)
     if cli.get("non_passed"):
         argv.append("--non-passed")
-    if cli.get("grep") is not None:
-        argv.append("--grep=" + re.escape(cli["grep"]))
+    if grep_pattern(cli) is not None:
+        argv.append("--grep=" + grep_pattern(cli))
     if cli.get("from_report"):
         argv.extend(["--from-report", report_dir])
     return argv
@@ -426,9 +454,13 @@ def ref_result_selected(cli, hier, res):
         return False
     if cli.get("disabled") and res["status"] != "disabled":
         return False
-    g = cli.get("grep")
-    if g:
-        lit = lower_ascii(g)
+    if cli.get("grep_re"):
+        # the statement: SOME SINGLE grepable item matches the regular expression (Python's re is trusted, each item
+        # is searched on its own, with the flags the documentation promises: case-insensitive, multi-line)
+        if not RX.search_items(cli["grep_re"], list(ref_grepables(res["steps"]))):
+            return False
+    elif cli.get("grep_re") is None and cli.get("grep"):
+        lit = lower_ascii(cli["grep"])
         if not any(lit in lower_ascii(txt) for txt in ref_grepables(res["steps"])):
             return False
     return True
@@ -436,7 +468,7 @@ def ref_result_selected(cli, hier, res):
 
 def ref_report_based(cli):
     return bool(cli.get("from_report") or cli.get("passed") or cli.get("failed") or cli.get("skipped")
-                or cli.get("non_passed") or cli.get("grep"))
+                or cli.get("non_passed") or grep_pattern(cli))
 
 
 def ref_has_criteria(cli):
@@ -659,6 +691,13 @@ def has_colon(cli):
 # ----------------------------------------------------------------------------------------------
 
 GLOB_ALPHA = "abcz!-]^[*?\\.AB~&|\né"
+REGEX_PROBES = ["", "\n", "er", "42", "er\n42", "er 42", "er\t\t42", "ok", "ok\nup", "up\nok", "OK", "x ok", "ok x", "a", "aab", "b",
+                "ab\nb", "er,42", "e r", "_", "a_b c", "\n\n", " ", "okay"]
+REGEX_CORPUS = [r"r\s+4", r"r\s4", r"^ok\Z", r"\Aok$", r"[^a-z]4", r"[^a-z]42", r"r\W4", r"r\n4", "r\n4", r"r$\s^4", r"\Aok\Z", r"ok\Z",
+                r"\Aup", r"^up", r"ok$", r"a*", r"^", r"$", r"\A", r"\Z", r"^$", r"\A\Z", r"\b", r"\B", r"\bok\b", r"\Bk", r"o\B",
+                r"(?:a*)*b", r"(?:^)*a", r"(?:a|^)*b", r"(?:$|a)+b", r"(a?)*$", r"(?:|a)+", r"(^a|b)*c", r"a{2,3}b", r"a{1,2}?b\Z",
+                r"[\s,]4", r"r[\s,]+4", r".k", r"r.4", r"[a-c]+b", r"[^\s]k", r"\d\d", r"\D\d", r"\w+\s\w+", r"e\sr", r"A|B",
+                r"(ok|up)\n(ok|up)", r"ok|^up$", r"[b-]", r"[]a]", r"[^]a]", r"a\.b|\.", r"\?", r"k\Z|\Ae"]
 GLOB_STR_ALPHA = "abcz!-]^[\\.AB~&|\né*?"
 
 
@@ -677,10 +716,19 @@ class Glob(C.Stream):
         + [{"kind": "glob-bodies", "n": n} for n in (0, 1, 2, 3, 4)]
         + [{"kind": "grep", "lit": l, "strs": ["", "foobar", "FOOBAR", "xfooBary", "a.b", "axb", "A.B", "x*y", "[Z]", "z"]}
            for l in ["foobar", "FooBar", "a.b", "x*y", "[z]", "", "B"]]
+        # regular expressions: the character tables of the model on whole code-point ranges, the anchors, the shapes of
+        # the seeded change C12-4 (a match that needs the newline of a join, \\A / \\Z, negated classes), empty-body loops
+        + [{"kind": "regex-chars", "pat": p, "upto": n} for p, n in
+           [(r"\s", 0x3100), (r"\S", 0x3100), (r"\d", 128), (r"\w", 128), (r"\W", 128), (r"[^\W\d]", 128), ("[A-z]", 128),
+            ("[^A-z]", 128), ("k", 128), ("[@-a]", 128), (".", 128), (r"\b.|.\b", 128), (r"^.$", 128)]]
+        + [{"kind": "regex", "pat": p, "strs": REGEX_PROBES} for p in REGEX_CORPUS]
+        + [{"kind": "regex", "pat": "é+x|^é", "strs": ["é", "e", "xéy", "ééx", "a\né"]}]
     )
 
     def gen(self, rng, i):
         r = rng.random()
+        if r > 0.78:
+            return RX.gen_regex_case(rng)
         if r < 0.08:
             lit = rng.choice(GREP_WORDS + ["".join(rng.choice("abAB.*") for _ in range(rng.randint(0, 3)))])
             strs = []
@@ -730,6 +778,9 @@ class Glob(C.Stream):
             if case["kind"] == "grep":
                 rx = F._make_grep_criterion(re.escape(case["lit"]))
                 return {"m": [rx.search(s) is not None for s in case["strs"]]}
+            if case["kind"] in ("regex", "regex-chars"):
+                rx = F._make_grep_criterion(case["pat"])
+                return {"m": [rx.search(s) is not None for s in self._regex_strs(case)]}
             if case["kind"] == "glob-bodies":
                 pats, strs = self._bodies(case["n"])
                 return {"mm": ["".join("1" if fnmatch.fnmatchcase(s, p) else "0" for s in strs) for p in pats]}
@@ -743,8 +794,21 @@ class Glob(C.Stream):
                     alt.append(["re.error", "re.error"])
             return {"m": out, "entry_points": alt}
 
+    @staticmethod
+    def _regex_strs(case):
+        return [chr(c) for c in range(case["upto"])] if case["kind"] == "regex-chars" else case["strs"]
+
     def oracle(self, case, obs):
         fails = []
+        if case["kind"] in ("regex", "regex-chars"):
+            # the criterion built for --grep is the pattern compiled case-insensitively and multi-line
+            ref = re.compile(case["pat"], re.IGNORECASE | re.MULTILINE)
+            exp = [ref.search(s) is not None for s in self._regex_strs(case)]
+            if exp != obs["m"]:
+                bad = [s for s, a, b in zip(self._regex_strs(case), obs["m"], exp) if a != b]
+                fails.append(C.Failure("C12/grep/regex-search", "--grep criterion %r differs from re.search (IGNORECASE | "
+                                       "MULTILINE) on %r" % (case["pat"], bad[:5])))
+            return fails
         if case["kind"] == "grep":
             exp = [lower_ascii(case["lit"]) in lower_ascii(s) for s in case["strs"]]
             if exp != obs["m"]:
@@ -765,6 +829,12 @@ class Glob(C.Stream):
         return fails
 
     def request(self, case, obs):
+        if case["kind"] in ("regex", "regex-chars"):
+            ast = RX.try_ast(case["pat"])
+            strs = self._regex_strs(case)
+            if ast is None or (case["kind"] == "regex" and not RX.model_can_decide(ast, strs)):
+                return None
+            return {"op": "regex", "re": ast, "strs": [cp(s) for s in strs]}
         if case["kind"] == "grep":
             return {"op": "grep", "lit": cp(case["lit"]), "strs": [cp(s) for s in case["strs"]]}
         if case["kind"] == "glob-bodies":
@@ -781,6 +851,19 @@ class Glob(C.Stream):
                 bad = [p for p, a, b in zip(pats, ans["mm"], obs["mm"]) if a != b]
                 return "bracket bodies of length %d: model differs on %s" % (case["n"], bad[:10])
             return None
+        if case["kind"] == "regex" and "joined" in ans:
+            ast = RX.try_ast(case["pat"])
+            if ast is not None and not RX.nested_star(ast):
+                # the model's answer on the newline-joined texts, and the theorem `search_joinNL` instantiated: for a
+                # pattern the model calls line-local, Python's joined search must equal "some text matches"
+                pj = RX.search_joined(case["pat"], case["strs"])
+                if ans["joined"] != pj:
+                    return "joined texts: model %s vs re %s" % (ans["joined"], pj)
+                if ans["line_local"] and case["strs"] and pj != any(obs["m"]):
+                    return "pattern classified line-local but joined search %s differs from per-text search" % pj
+        if case["kind"] == "regex-chars" and ans["m"] != obs["m"]:
+            return "pattern %r: model differs on code points %s" % (
+                case["pat"], [hex(i) for i, (a, b) in enumerate(zip(ans["m"], obs["m"])) if a != b][:10])
         if ans["m"] != obs["m"]:
             return "model %s vs real %s" % (ans["m"], obs["m"])
         return None
@@ -788,11 +871,27 @@ class Glob(C.Stream):
     def nontrivial(self, case, obs):
         if case["kind"] == "glob-bodies":
             return True
-        if case["kind"] == "grep":
+        if case["kind"] in ("grep", "regex", "regex-chars"):
             return len(set(obs["m"])) == 2
         return any(c in case["pat"] for c in "*?[") and len(set(map(str, obs["m"]))) >= 2
 
     def features(self, case, obs):
+        if case["kind"] == "regex":
+            f = ["regex"]
+            ast = RX.try_ast(case["pat"])
+            if ast is None:
+                return f + ["regex:outside-fragment"]
+            kinds = {n["t"] for n in RX._walk(ast)}
+            f += ["regex:" + k for k in sorted(kinds & {"set", "any", "bol", "eol", "bos", "eos", "wordb", "alt", "star"})]
+            if any(n["t"] == "set" and n["neg"] for n in RX._walk(ast)):
+                f.append("regex:negated-class")
+            if any(it["k"] == "cat" for n in RX._walk(ast) if n["t"] == "set" for it in n["items"]):
+                f.append("regex:category")
+            if not RX.model_can_decide(ast, case["strs"]):
+                f.append("regex:outside-validated-domain")
+            if True in obs["m"]:
+                f.append("some-match")
+            return f
         if case["kind"] != "glob":
             return [case["kind"]]
         p = case["pat"]
@@ -1069,7 +1168,7 @@ def selection_features(case, obs):
     for k in ("enabled", "disabled", "passed", "failed", "skipped", "non_passed", "from_report"):
         if cli.get(k):
             f.append("flag=" + k)
-    if cli.get("grep"):
+    if grep_pattern(cli):
         f.append("flag=grep")
     depth = max([len(h) for h, _ in walk_suites(case["suites"])] or [0])
     f.append("depth=%d" % depth)
@@ -1113,11 +1212,31 @@ def shrink_selection(case):
             yield dict(case, cli=dict(cli, **{k: False}))
     if cli.get("grep") is not None:
         yield dict(case, cli=dict(cli, grep=None))
+    if cli.get("grep_re") is not None:
+        yield dict(case, cli=dict(cli, grep_re=None))
     for trees in _shrink_trees(case["suites"]):
         yield dict(case, suites=trees)
     if case.get("report"):
         for trees in _shrink_trees(case["report"]):
             yield dict(case, report=trees)
+        for trees in _shrink_steps(case["report"]):
+            yield dict(case, report=trees)
+
+
+def _shrink_steps(trees):
+    """Smaller report contents: a step removed, a log entry removed (what --grep looks at)."""
+    for i, t in enumerate(trees):
+        for j, r in enumerate(t["tests"]):
+            def put(steps):
+                return trees[:i] + [dict(t, tests=t["tests"][:j] + [dict(r, steps=steps)] + t["tests"][j + 1:])] + trees[i + 1:]
+            st = r["steps"]
+            for k in range(len(st)):
+                yield put(st[:k] + st[k + 1:])
+            for k, step in enumerate(st):
+                for m in range(len(step["logs"])):
+                    yield put(st[:k] + [dict(step, logs=step["logs"][:m] + step["logs"][m + 1:])] + st[k + 1:])
+        for sub in _shrink_steps(t["subs"]):
+            yield trees[:i] + [dict(t, subs=sub)] + trees[i + 1:]
 
 
 # ----------------------------------------------------------------------------------------------
@@ -1279,6 +1398,26 @@ def gen_scripts(rng, trees):
     return scripts
 
 
+def script_items(acts):
+    """Roughly what --grep will see of a test that runs `acts` (only used to aim generated patterns)."""
+    items = []
+    for a in acts:
+        k = a[0]
+        if k == "step":
+            items.append(a[1])
+        elif k in ("info", "error"):
+            items.append(a[1])
+        elif k == "check":
+            items.append(a[1])
+            if a[3]:
+                items.append(a[3])
+        elif k == "url":
+            items += [a[1], a[2] or a[1]]
+        elif k == "attach":
+            items += ["attachments/f.txt", a[1]]
+    return items
+
+
 def make_callback(acts):
     import lemoncheesecake.api as lcc
 
@@ -1353,10 +1492,31 @@ class ReportStream(C.Stream):
         proj = [_s("s", [_t("a"), _t("b"), _t("n")], [_s("u", [_t("c")]), _s("v", [_t("d", disabled=True), _t("p")])])]
         return {"mode": "cli", "how": "built", "backend": "json", "cli": cli, "suites": proj, "report": rep}
 
+    @staticmethod
+    def _demo_grep(pat, **kw):
+        """Results whose adjacent grepable items would satisfy a pattern only together, an inner item that satisfies an
+        \\A / \\Z pattern on its own, a result without any item."""
+        def res(name, *logs):
+            return {"node": _t(name), "status": "passed",
+                    "steps": [{"description": "Send request", "logs": [{"kind": "log", "message": m} for m in logs]}] if logs else []}
+        cli = empty_cli()
+        cli.update(grep_re=pat, from_report=True)
+        cli.update(kw)
+        names = ["server_error", "items_received", "done_early", "never_done", "silent"]
+        rep_ = [{"node": _t("jobs"), "subs": [], "tests": [
+            res("server_error", "request sent", "server replied with error   42, giving up"),
+            res("items_received", "request sent, no error", "42 items received"),
+            res("done_early", "done", "cleaning up workspace"),
+            res("never_done", "still running", "cleaning up workspace"),
+            res("silent")]}]
+        proj = [_s("jobs", [_t(n) for n in names])]
+        return {"mode": "cli", "how": "built", "backend": "json", "cli": cli, "suites": proj, "report": rep_, "grep_kind": "hand"}
+
     corpus = []
 
     def __init__(self):
         d = self._demo
+        g = self._demo_grep
         self.corpus = [d(from_report=True), d(failed=True), d(passed=True), d(skipped=True), d(non_passed=True),
                        d(grep="grepable"), d(from_report=True, tags=[["db"]]), d(from_report=True, disabled=True),
                        d(from_report=True, enabled=True), d(failed=True, paths=["s.b"]), d(failed=True, tags=[["^x"]]),
@@ -1364,7 +1524,12 @@ class ReportStream(C.Stream):
                        d(failed=True, from_report=True), dict(d(non_passed=True), backend="xml"),
                        d(grep="nothing-like-this"),
                        # D9 on the report side (IndexError on the unrepaired tree)
-                       d(from_report=True, tags=[[""]]), d(failed=True, paths=[""])]
+                       d(from_report=True, tags=[[""]]), d(failed=True, paths=[""]),
+                       # --grep with regular expressions: every grepable item is searched on its own
+                       g(r"error\s+42"), g(r"^done\Z"), g(r"[^a-z]42 "), g(r"request sent$"), g(r"\Adone"), g(r"x*"),
+                       g(r"sent\W+server"), g(r"error\n42"), g(r"workspace\Z"), g(r"^send request$\s^request"),
+                       g(r"\bDONE\b", passed=True), dict(g(r"running$\s+^cleaning"), backend="xml"),
+                       g(r"(?=x)|y")]
 
     def setup(self, ctx):
         self.dir = tempfile.mkdtemp(prefix="lccverif-c12r-")
@@ -1390,21 +1555,37 @@ class ReportStream(C.Stream):
             cli["non_passed"] = True
         elif r < 0.74:
             cli["passed"] = cli["skipped"] = True
-        if rng.random() < 0.22:
+        rg = rng.random()
+        if rg < 0.16:
             cli["grep"] = rng.choice(GREP_WORDS + ["GOT", "Step", ""])
+        want_regex = 0.16 <= rg < 0.42
         if rng.random() < 0.12:
             cli[rng.choice(["enabled", "disabled"])] = True
-        if rng.random() < 0.7 or not ref_report_based(cli):
+        if rng.random() < 0.7 or not (ref_report_based(cli) or want_regex):
             cli["from_report"] = True
         case = {"mode": "cli", "how": how, "backend": "json" if rng.random() < 0.75 else "xml",
                 "cli": cli, "suites": trees}
         if how == "built":
             case["report"] = derive_report(rng, trees)
+            item_lists = [list(ref_grepables(r["steps"])) for _, r in walk_tests(case["report"])]
         else:
             for _, t in walk_tests(trees):
                 t["tags"] = [x for x in t["tags"]]
             case["scripts"] = gen_scripts(rng, trees)
             case["first_cli"] = gen_filter(rng, trees) if rng.random() < 0.35 else None
+            item_lists = [script_items(a) for a in case["scripts"].values()]
+        if want_regex:
+            # a regular expression aimed at what the report holds: a match that would need two adjacent items, \A / \Z
+            # on an inner item, a pattern matching the empty string (results without steps), line anchors, classes
+            for _ in range(8):
+                pat, kind = RX.aimed_pattern(rng, item_lists)
+                ast = RX.try_ast(pat)
+                if ast is not None and not RX.nested_star(ast) and RX.size(ast) <= 60 and "\x00" not in pat:
+                    cli["grep_re"] = pat
+                    case["grep_kind"] = kind
+                    break
+            if not ref_report_based(cli):
+                cli["from_report"] = True
         if cli_argv(cli, "R") is None or has_colon(cli):
             for k in ("paths", "descs", "tags", "props", "links"):
                 cli[k] = []
@@ -1504,6 +1685,8 @@ class ReportStream(C.Stream):
         if obs.get("outcome") in ("cli-cannot-express", "cli-rejected", "no-previous-run"):
             return None
         c = self._with_report(case, obs)
+        if not grep_model_ok(case["cli"], c["report"]):
+            return None         # pattern outside the modelled fragment / validated alphabet: the oracle decides alone
         return {"op": "select", "mode": "cli", "cli": enc_cli(case["cli"]),
                 "report": [enc_tree(t, enc_res) for t in c["report"]],
                 "suites": [enc_tree(t, enc_node) for t in case["suites"]]}
@@ -1532,6 +1715,25 @@ class ReportStream(C.Stream):
             f.append("project-tests-missing-from-report")
         if case.get("first_cli"):
             f.append("previous-run-filtered")
+        pat = case["cli"].get("grep_re")
+        if pat:
+            f.append("grep=regex")
+            f.append("grep-aim=" + case.get("grep_kind", "hand"))
+            if not grep_model_ok(case["cli"], rep):
+                f.append("grep-regex-not-modelled")
+            # how many cases tell "some single item matches" from "the joined items match" (measured, not demanded)
+            per = [RX.search_items(pat, list(ref_grepables(r["steps"]))) for _, r in walk_tests(rep)]
+            joined = [RX.search_joined(pat, list(ref_grepables(r["steps"]))) for _, r in walk_tests(rep)]
+            if any(j and not p for p, j in zip(per, joined)):
+                f.append("grep-joined-would-accept-more")
+            if any(p and not j for p, j in zip(per, joined)):
+                f.append("grep-joined-would-accept-less")
+            if any(per):
+                f.append("grep-regex-some-result-accepted")
+            if per and not all(per):
+                f.append("grep-regex-some-result-rejected")
+        elif case["cli"].get("grep"):
+            f.append("grep=word")
         return sorted(set(f))
 
     def shrink(self, case):
@@ -1558,6 +1760,69 @@ def LL(xs, f=L):
 
 def B(b):
     return "true" if b else "false"
+
+
+def lean_re(a):
+    """Lean term (LccModel.Regex.RE) of an AST produced by harness/gen/regexes.py."""
+    t = a["t"]
+    if t in ("eps", "any", "bol", "eol", "bos", "eos"):
+        return "Rx." + t
+    if t == "lit":
+        return "(Rx.lit %d)" % a["c"]
+    if t == "wordb":
+        return "(Rx.wordB %s)" % B(a["neg"])
+    if t == "set":
+        def item(it):
+            if it["k"] == "single":
+                return "Item.single %d" % it["c"]
+            if it["k"] == "range":
+                return "Item.range %d %d" % (it["lo"], it["hi"])
+            return "Item.cat Cat.%s %s" % (it["cat"], B(it["neg"]))
+        return "(Rx.set ⟨%s, [%s]⟩)" % (B(a["neg"]), ", ".join(item(i) for i in a["items"]))
+    if t == "star":
+        return "(Rx.star %s)" % lean_re(a["a"])
+    return "(Rx.%s %s %s)" % (t, lean_re(a["a"]), lean_re(a["b"]))
+
+
+def lean_log(l):
+    k = l["kind"]
+    if k == "log":
+        return "LogEntry.log %s" % L(l["message"])
+    if k == "check":
+        return "LogEntry.check %s %s" % (L(l["description"]), "none" if l["details"] is None else "(some %s)" % L(l["details"]))
+    if k == "attachment":
+        return "LogEntry.attachment %s %s" % (L(l["filename"]), L(l["description"]))
+    return "LogEntry.url %s %s" % (L(l["url"]), L(l["description"]))
+
+
+def lean_steps(steps):
+    return "[" + ", ".join("{ description := %s, logs := [%s] }" % (L(st["description"]), ", ".join(lean_log(l) for l in st["logs"]))
+                           for st in steps) + "]"
+
+
+GREP_TABLE_PATTERNS = [r"r\s+4", r"r\s4", r"^ok\Z", r"\Aup", r"[^a-z]4", r"r\W+4", r"r\n4", r"a*", r"^", r"\Z", r"ok$", r"^up", "OK", r"k$\s^u",
+                       r"\bup\b", r"o.\Z", r"\A$", r"x|4", r"[\s,]u", r"\d\d"]
+
+
+def grep_table_steps():
+    log = lambda m: {"kind": "log", "message": m}
+    return [
+        [],
+        [{"description": "", "logs": []}],
+        [{"description": "er", "logs": [log("42")]}],
+        [{"description": "S", "logs": [log("er"), log("42")]}],
+        [{"description": "S", "logs": [log("er 42")]}],
+        [{"description": "S", "logs": [log("er\n42")]}],
+        [{"description": "ok", "logs": [log("up")]}],
+        [{"description": "S", "logs": [log("up"), log("ok")]}],
+        [{"description": "S", "logs": [log("ok")]}, {"description": "up", "logs": []}],
+        [{"description": "S", "logs": [{"kind": "check", "description": "ok", "details": "up"}]}],
+        [{"description": "S", "logs": [{"kind": "check", "description": "ok", "details": ""}, log("up")]}],
+        [{"description": "S", "logs": [{"kind": "check", "description": "er", "details": None}, log("42")]}],
+        [{"description": "S", "logs": [{"kind": "url", "url": "er", "description": "42"}]}],
+        [{"description": "S", "logs": [{"kind": "attachment", "filename": "ok", "description": "up"}]}],
+        [{"description": "S", "logs": [{"kind": "attachment", "filename": "f", "description": ""}]}],
+    ]
 
 
 def tables(ctx):
@@ -1672,4 +1937,34 @@ def tables(ctx):
         out = B(bool(F.TestFilter(enabled=bits[5], disabled=bits[6], **kw)))
         rows.append(("(%s)" % ", ".join(B(b) for b in bits), out, "%s -> %s" % (bits, out)))
     tabs.append(C.Table("truthyTable", "List ((Bool × Bool × Bool × Bool × Bool × Bool × Bool) × Bool)", rows, imports))
+
+    # T7 _grep / ResultFilter._do_grep: the criterion compiled by _make_grep_criterion applied to real Step objects;
+    # which items are looked at, and that each is searched on its own (patterns whose match would need two items,
+    # string anchors on inner items, patterns matching the empty string on results without any item)
+    from lemoncheesecake.reporting.report import Step, Log, Check, Url, Attachment
+    rows = []
+    for pat in GREP_TABLE_PATTERNS:
+        ast = RX.to_ast(pat)
+        rx = F._make_grep_criterion(pat)
+        for steps in grep_table_steps():
+            real = []
+            for st in steps:
+                step = Step(st["description"])
+                for l in st["logs"]:
+                    k = l["kind"]
+                    step.add_log(Log("info", l["message"], 0.0) if k == "log" else
+                                 Check(l["description"], True, l["details"], 0.0) if k == "check" else
+                                 Url(l["description"], l["url"], 0.0) if k == "url" else
+                                 Attachment(l["description"], l["filename"], False, 0.0))
+                real.append(step)
+
+            def f():
+                rf = F.ResultFilter(grep=rx)
+                r = TestResult("t", "t")
+                for step in real:
+                    r.add_step(step)
+                return rf._do_grep(r)
+            out = opt(f)
+            rows.append(("(%s, %s)" % (lean_re(ast), lean_steps(steps)), out, "grep %r on %r -> %s" % (pat, steps, out)))
+    tabs.append(C.Table("grepTable", "List ((RE × List Step) × Option Bool)", rows, ("LccModel.Model.Filter",)))
     return tabs
